@@ -53,6 +53,9 @@ def _gen_record_spec(rng, index: int, with_genes: Optional[bool] = None) -> Dict
             used.add(key)
             spec["genes"].append({"name": f"r{index}g{g}", "parts": parts, "strand": strand,
                                   "cores": [p for p in PRODUCTS if rng.random() < 0.3]})
+            if len(parts) == 1 and rng.random() < 0.12:
+                # a partial gene as at the edge of a contig: open first and / or last coordinate
+                spec["genes"][-1]["fuzzy"] = rng.choice(["<", ">", "<>"])
         for _ in range(rng.randint(0, 3)):
             if circular and rng.random() < 0.4:
                 upper = rng.randint(2, length // 3)
@@ -203,6 +206,20 @@ class PoolEngine(Engine):
             scenario["options"] = {"minlength": rng.choice([0, 0, 50]), "limit": rng.choice([-1, -1, 2]),
                                    "genefinding_tool": rng.choice(["prodigal", "none"]),
                                    "allow_long_headers": rng.random() < 0.5}
+            if rng.random() < 0.04:
+                # one single record of a megabase (such inputs may get special treatment): its last gene ends on
+                # the last base, the length is no multiple of most worker counts
+                total = 1_000_000 + rng.randint(1, 15)
+                block = "".join(rng.choice("ACGT") for _ in range(1000))
+                spec = _gen_record_spec(rng, 0, with_genes=False)
+                spec.update({"seq": "", "seq_repeat": {"block": block, "times": 1000, "tail": block[:total - 1_000_000]},
+                             "circular": False, "protos": [], "subs": [], "create": False, "original_id": None,
+                             "record_index": None,
+                             "genes": [{"name": "first", "parts": [[30, 330]], "strand": 1, "cores": []},
+                                       {"name": "last", "parts": [[total - 300, total]], "strand": 1, "cores": []}]})
+                scenario["tasks"] = [{"i": 0, "spec": spec, "ms": duration(0), "ms2": duration(1)}]
+                scenario["options"]["genefinding_tool"] = "none"
+                return scenario
             dup = rng.random() < 0.3
             long_family = rng.choice([None, None, "mygenome_assembly_v{i}_contig7", "NZ_AMZN01000079.{i}",
                                       "scaffold12_of_assembly_number_{i}"])
